@@ -7,11 +7,19 @@ names=${*:-$(ls seeded)}
 for n in $names; do
   d=/verif/seeded/$n
   id=$(/venv/bin/python -c "import json;print(json.load(open('$d/meta.json'))['property'])")
-  (cd /tmp && PYTHONPATH=/repo/src MPLBACKEND=Agg timeout 900 /venv/bin/python $d/demo.py >/dev/null 2>&1); dc=$?
+  if [ -n "$SKIP_DEMO" ] && [ -f $d/result.json ]; then   # reuse the demo outcomes recorded earlier (the demos take up to two minutes each)
+    dc=$(/venv/bin/python -c "import json;print(json.load(open('$d/result.json')).get('demo_exit_unchanged',0))")
+  else
+    (cd /tmp && PYTHONPATH=/repo/src MPLBACKEND=Agg timeout 900 /venv/bin/python $d/demo.py >/dev/null 2>&1); dc=$?
+  fi
   if git -C /repo apply --check $d/patch.diff 2>/dev/null; then
     git -C /repo apply $d/patch.diff
     cp evidence/$id.json /tmp/evidence_$id.keep 2>/dev/null
-    (cd /tmp && PYTHONPATH=/repo/src MPLBACKEND=Agg timeout 900 /venv/bin/python $d/demo.py >/dev/null 2>&1); ds=$?
+    if [ -n "$SKIP_DEMO" ] && [ -f $d/result.json ]; then
+      ds=$(/venv/bin/python -c "import json;print(json.load(open('$d/result.json')).get('demo_exit_seeded',1))")
+    else
+      (cd /tmp && PYTHONPATH=/repo/src MPLBACKEND=Agg timeout 900 /venv/bin/python $d/demo.py >/dev/null 2>&1); ds=$?
+    fi
     tf=$(/venv/bin/python -c "import json;print(json.dumps(json.load(open('$d/result.json')).get('repo_test_failures_with_change')))" 2>/dev/null || echo null); [ -z "$tf" ] && tf=null   # keep an earlier test-suite result
     if [ -n "$RUN_TESTS" ]; then   # the repository's own suite on the changed tree (failures other than the known flake tests/test_fit.py::test_mom)
       tf=$(cd /repo && MPLBACKEND=Agg timeout 1800 /venv/bin/python -m pytest -q -p no:cacheprovider --timeout=900 2>&1 | grep -E "^FAILED|^ERROR" | grep -vc "test_fit.py::test_mom")
